@@ -28,6 +28,7 @@ type half struct {
 	cut      int // >= 0: only the first cut octets ever written are delivered, then EOF
 	written  int
 	nread    int
+	waiting  bool      // a Read is blocked with nothing buffered
 	events   []ioEvent // SetReadDeadline calls and data-returning Reads on this direction, in order
 }
 
@@ -100,7 +101,9 @@ func (e *endpoint) Read(p []byte) (int, error) {
 		if h.eof {
 			return 0, io.EOF
 		}
+		h.waiting = true
 		h.cond.Wait()
+		h.waiting = false
 	}
 }
 
@@ -194,6 +197,13 @@ func (e *endpoint) SetReadDeadline(t time.Time) error {
 		}
 	}
 	return nil
+}
+
+// readerIdle: a Read on this end is blocked and nothing is buffered for it.
+func (e *endpoint) readerIdle() bool {
+	e.in.mu.Lock()
+	defer e.in.mu.Unlock()
+	return e.in.waiting && len(e.in.buf) == 0 && !e.in.eof
 }
 
 func (e *endpoint) readEvents() []ioEvent {
